@@ -203,17 +203,7 @@ fn write_to_cache(url: &str, content: &str, project_root: Option<&Path>) -> Opti
 
     // Write content to cache file
     let mut file = fs::File::create(&cache_path).ok()?;
-    #[cfg(feature = "verif")]
-    crate::verif_hooks::point("remote-cache.created", &cache_path);
-    #[cfg(feature = "verif")]
-    if crate::verif_hooks::crash_armed("remote-cache.mid-write", &cache_path) {
-        let _ = file.write_all(&content.as_bytes()[..content.len() / 2]);
-        let _ = file.flush();
-        std::process::abort();
-    }
     file.write_all(content.as_bytes()).ok()?;
-    #[cfg(feature = "verif")]
-    crate::verif_hooks::point("remote-cache.written", &cache_path);
 
     Some(())
 }
